@@ -489,6 +489,8 @@ def run(chk):
     e10.run_U(chk, ("yastn.tensor.linalg",), floor1=5, floor2=1)
     run_D8(chk)
     run_D2rel(chk)
+    run_D9(chk)
+    run_D10(chk)
 
 
 def _param_deps(prog, f, expr, at=None, depth=0):
@@ -539,6 +541,58 @@ def _param_deps(prog, f, expr, at=None, depth=0):
     visit_expr(expr)
     # control dependence of the expression's own position
     return out
+
+
+def run_D9(chk):
+    """D9: the *_with_truncation wrappers return the spectrum the decomposition computed, restricted by the mask -- not a transformed
+    one.  The ordering key handed to truncation_mask may be abs(S) or -S (option `which`), but the S that is masked and returned is
+    the one bound by the decomposition call: no other definition of that name reaches the statement that applies the mask."""
+    from ..core.knob import KnobEval
+    prog = chk.prog
+    chk.rule("D9", "the spectrum masked and returned by the wrappers is the one the decomposition computed (ordering keys are separate values)", floor=2)
+    for name in ("svd_with_truncation", "eigh_with_truncation"):
+        f = prog.func(LINALG, name)
+        fn = f.node
+        dec = [n for n in ast.walk(fn) if isinstance(n, ast.Assign) and isinstance(n.targets[0], ast.Tuple) and isinstance(n.value, ast.Call)
+               and (A.call_name(n.value) or "").split(".")[-1] in ("svd", "eigh", "eig")]
+        chk.require(dec, f"{name}: decomposition call not found")
+        d = dec[0]
+        app = [n for n in ast.walk(fn) if isinstance(n, ast.Assign) and isinstance(n.value, ast.Call) and A.callee_attr(n.value) == "apply_mask"]
+        chk.require(app, f"{name}: mask.apply_mask(..) not found")
+        masked = [a_.id for a_ in app[0].value.args if isinstance(a_, ast.Name)]
+        ke = KnobEval(fn, {})
+        for nm in masked:
+            if nm not in A.assigned_names(d.targets[0]):
+                continue
+            defs = ke._defs(nm, app[0])
+            other = [st for st, v, k in defs if st is not d and st is not app[0]]
+            chk.verdict("D9", (f, other[0] if other else app[0]), f"{name}: `{nm}` reaching `{A.short(app[0], 50)}` comes from the decomposition only",
+                        False if other else True,
+                        f"{name}(): `{nm}` is rebound by `{A.short(other[0], 50) if other else ''}` between the decomposition and the masking: what is masked "
+                        f"and returned is a transformed spectrum (e.g. abs(S) used as ordering key written back into S) -- U S U^dagger is then no "
+                        f"truncation of the input, signs of the eigenvalues are lost")
+
+
+def run_D10(chk):
+    """D10: the per-block stage enforces D_block / tol_block on *every* sector: in the loop over the blocks of the spectrum every path of one
+    iteration passes the computation of the block's keep-count; a `continue` (or a guard) in front of it exempts sectors from the limits
+    -- e.g. one-element sectors, for which "nothing to order" does not mean "nothing to discard"."""
+    from .e7 import body_cfg
+    prog = chk.prog
+    chk.rule("D10", "every sector passes the computation of its keep-count in the per-block stage (no sector is exempt from D_block / tol_block)", floor=1)
+    f = prog.func(LINALG, "truncation_mask")
+    loops = [n for n in A.walk_local(f.node) if isinstance(n, ast.For) and "slices" in A.text(n.iter) and any(
+             isinstance(x, ast.Call) and A.call_name(x) == "min" for x in ast.walk(n))]
+    chk.require(loops, "truncation_mask: per-block loop with the keep-count min(limit, count) not found")
+    lp = loops[0]
+    cfg = body_cfg(lp.body)
+    mins = [st for st in [n.ast for n in cfg.nodes if isinstance(n.ast, ast.stmt)] if isinstance(st, ast.Assign) and isinstance(st.value, ast.Call) and A.call_name(st.value) == "min"]
+    chk.require(mins, "truncation_mask: keep-count statement not found in the per-block loop")
+    ok = cfg.always_followed(cfg.entry.id, mins, strict=True) if hasattr(cfg, "always_followed") else False
+    chk.verdict("D10", (f, mins[0]), f"every iteration of the per-block loop passes `{A.short(mins[0], 40)}`", True if ok else False,
+                f"truncation_mask(): some path through one iteration of the per-block loop skips `{A.short(mins[0], 40)}` (a `continue` / guard in front of it): "
+                f"the sectors taking that path are exempt from D_block and tol_block -- a one-element sector with D_block[t] = 0 (or absent from the "
+                f"dict) survives and displaces a larger value under D_total")
 
 
 def run_D2rel(chk):
